@@ -29,6 +29,11 @@ let () =
       | "offset", [i; st] -> Some (string_of_z (compute_offset (getL i) (getL st)))
       | "bshape", [x; y] -> Some (match broadcast_shape2 (getL x) (getL y) with Some l -> show_list l | None -> "nothing")
       | "reverse", [s] -> Some (show_list (List.rev (getL s)))
+      | "reshape", [s; d] -> Some (match Views.shape_reshape (getL s) (getL d) with Some l -> show_list l | None -> "nothing")
+      | "normalize_axis", [x; n] -> Some (match Views.normalize_axis (getI x) (getI n) with Some v -> string_of_z v | None -> "nothing")
+      | "normalize_axes", [x; n] -> Some (match Views.normalize_axes (getL x) (getI n) with Some l -> show_list l | None -> "nothing")
+      | "transpose_none", [s] -> Some (show_list (Views.shape_transpose (getL s) None))
+      | "tile", [s; r] -> Some (show_list (Select.shape_tile (getL s) (getL r)))
       | _ -> None in
     let reference = match ideal with
       | Some v -> v
